@@ -193,6 +193,7 @@ type script struct {
 	ProcBudget int        `json:"processor_request_budget"`
 	PWake      int        `json:"pm_proc_wake"`
 	PWakeNow   int        `json:"pm_proc_wake_now"`
+	PNotif     int        `json:"pm_proc_self_notification"`
 	PSend      int        `json:"pm_proc_send"`
 	PRetrieve  int        `json:"pm_proc_retrieve"`
 }
@@ -280,7 +281,7 @@ func genAction(rng *rand.Rand, sc *script, now uint64, ports bool) action {
 func genScript(rng *rand.Rand) *script {
 	sc := &script{Seed: rng.Uint64(), Period: 1000, InCap: 1 + rng.Intn(3), OutCap: 1 + rng.Intn(3),
 		PeerIn: 1 + rng.Intn(3), PeerOut: 1 + rng.Intn(4),
-		ProcBudget: rng.Intn(40), PWake: rng.Intn(700), PWakeNow: rng.Intn(200), PSend: rng.Intn(600), PRetrieve: 300 + rng.Intn(700)}
+		ProcBudget: rng.Intn(40), PWake: rng.Intn(700), PWakeNow: rng.Intn(200), PNotif: rng.Intn(150), PSend: rng.Intn(600), PRetrieve: 300 + rng.Intn(700)}
 	if rng.Intn(3) == 0 {
 		sc.Period = []uint64{1, 2, 500, 1000, 3000}[rng.Intn(5)]
 	}
@@ -436,6 +437,17 @@ func (p *processor) Process(comp *edComp, now timing.VTimeInPicoSec) bool {
 		w.procReqs++
 		w.wakeNow()
 	}
+	s = mix(s)
+	if int(s%1000) < w.sc.PNotif { // a notification that arrives while Process is running (e.g. a loop-back delivery)
+		w.procReqs++
+		w.direct = true
+		if (s>>12)%2 == 0 {
+			w.tap.NotifyRecv(w.cport)
+		} else {
+			w.tap.NotifyPortFree(w.cport)
+		}
+		w.direct = false
+	}
 	return true
 }
 
@@ -464,7 +476,7 @@ func main() {
 		Level: "exploration",
 		Rule: "histories drawn from 5 flavours (same-instant, on connection edges, requests only, dense, mixed): 3-32 primary/secondary stimulus events with 1-3 actions each " +
 			"(ScheduleWakeAt now+d / equal / earlier / later than the outstanding request, ScheduleWakeNow, direct NotifyRecv/NotifyPortFree, peer send, peer retrieve), " +
-			"actions from outside the engine before each of 1-3 Run phases, and a processor that retrieves, sends and issues up to 40 further requests inside Process; " +
+			"actions from outside the engine before each of 1-3 Run phases, and a processor that retrieves, sends, issues up to 40 further requests and receives direct NotifyRecv/NotifyPortFree calls inside Process; " +
 			"a history is non-trivial when it has >= 3 processor runs, a request later than and one earlier than or equal to the outstanding one, and a request issued inside Process; " +
 			"distinct by the hash of the history",
 		Assumptions: []string{
@@ -486,7 +498,7 @@ func main() {
 		Run: run,
 		MustObserve: []string{"processor_runs", "req_earlier_than_outstanding", "req_later_than_outstanding", "req_equal_to_outstanding",
 			"req_with_none_outstanding", "requests_inside_process", "requests_outside_process", "requests_from_outside_the_engine",
-			"notif_recv_by_port_delivery", "notif_free_by_port", "requests_absorbed_by_dedup_guard", "requests_for_the_current_instant_inside_process"},
+			"notif_recv_by_port_delivery", "notif_free_by_port", "requests_absorbed_by_dedup_guard", "requests_for_the_current_instant_inside_process", "notifications_during_process"},
 	})
 }
 
